@@ -1,6 +1,7 @@
 package eng
 
 import (
+	"go/types"
 	"go/token"
 
 	"golang.org/x/tools/go/ssa"
@@ -309,10 +310,17 @@ func (p *Prog) SameValue(a, b ssa.Value) bool {
 	}
 	la, ok1 := a.(*ssa.UnOp)
 	lb, ok2 := b.(*ssa.UnOp)
+	if ok1 && ok2 && la.Op == token.MUL && lb.Op == token.MUL && la.X == lb.X {
+		// two loads of one local composite (k := T{…}; m[k] … m[k] = v): equal when the local is written only by the
+		// field stores of its literal, all of them in the allocating block before any load, and never escapes
+		if al, isA := la.X.(*ssa.Alloc); isA && writeOnceLocal(al) {
+			return true
+		}
+	}
 	if ok1 && ok2 && la.Op == token.MUL && lb.Op == token.MUL {
 		fa, ok1 := la.X.(*ssa.FieldAddr)
 		fb, ok2 := lb.X.(*ssa.FieldAddr)
-		if ok1 && ok2 && fa.Field == fb.Field && fa.Parent() == fb.Parent() && p.SameValue(fa.X, fb.X) {
+		if ok1 && ok2 && fa.Field == fb.Field && fa.Parent() == fb.Parent() && p.sameBase(fa.X, fb.X) {
 			t, f, _, ok := FieldOf(fa)
 			if !ok {
 				return false
@@ -329,4 +337,62 @@ func (p *Prog) SameValue(a, b ssa.Value) bool {
 		}
 	}
 	return false
+}
+
+// writeOnceLocal: al is a local whose only referrers are loads and field addresses that are only stored to, every such
+// store sitting in al's own block before the first load of al in that block.
+func writeOnceLocal(al *ssa.Alloc) bool {
+	if al.Referrers() == nil {
+		return false
+	}
+	idx := func(b *ssa.BasicBlock, x ssa.Instruction) int {
+		for i, ins := range b.Instrs {
+			if ins == x {
+				return i
+			}
+		}
+		return -1
+	}
+	lastStore, firstLoad := -1, 1<<30
+	for _, r := range *al.Referrers() {
+		switch r := r.(type) {
+		case *ssa.UnOp:
+			if r.Op != token.MUL {
+				return false
+			}
+			if r.Block() == al.Block() {
+				if i := idx(r.Block(), r); i < firstLoad {
+					firstLoad = i
+				}
+			}
+		case *ssa.FieldAddr:
+			if r.Referrers() == nil {
+				return false
+			}
+			for _, rr := range *r.Referrers() {
+				st, isS := rr.(*ssa.Store)
+				if !isS || st.Addr != ssa.Value(r) || st.Block() != al.Block() {
+					return false
+				}
+				if i := idx(st.Block(), st); i > lastStore {
+					lastStore = i
+				}
+			}
+		case *ssa.DebugRef:
+		default:
+			return false
+		}
+	}
+	return lastStore < firstLoad
+}
+
+// sameBase: two struct addresses denote the same object — equal values, or the same field of the same base (an embedded or
+// nested struct addressed twice: &(&x.Inner).F computed at two places).
+func (p *Prog) sameBase(a, b ssa.Value) bool {
+	if p.SameValue(a, b) {
+		return true
+	}
+	fa, ok1 := a.(*ssa.FieldAddr)
+	fb, ok2 := b.(*ssa.FieldAddr)
+	return ok1 && ok2 && fa.Field == fb.Field && types.Identical(fa.X.Type(), fb.X.Type()) && p.sameBase(fa.X, fb.X)
 }
